@@ -360,3 +360,15 @@ Proof.
   replace (map (fun c : C => Cmult c Iq) cp) with (map (Cmult Iq) cp) by (apply map_ext; intros c; apply Cmult_comm).
   rewrite cpint_scale. apply Cmult_comm.
 Qed.
+
+(* the 2-D form is the nest of two 1-D adaptive integrations with the SAME tolerance and the SAME depth at both levels *)
+Lemma simpson_adaptive_2d_nest : forall (f : R -> R -> C) (ax bx ay by_ eps : R) d,
+  simpson_adaptive_2d Rops f ax bx ay by_ eps d =
+  simpson_adaptive Rops (fun x => simpson_adaptive Rops (fun y => f x y) ay by_ eps d) ax bx eps d.
+Proof. intros. reflexivity. Qed.
+
+Lemma simpson_adaptive_2d_calls_nest : forall (f : R -> R -> C) (ax bx ay by_ eps : R) d,
+  simpson_adaptive_2d_calls Rops f (fun _ _ => 1%nat) ax bx ay by_ eps d =
+  simpson_adaptive_calls Rops (fun x => simpson_adaptive Rops (fun y => f x y) ay by_ eps d)
+    (fun x => simpson_adaptive_calls Rops (fun y => f x y) (fun _ => 1%nat) ay by_ eps d) ax bx eps d.
+Proof. intros. reflexivity. Qed.
